@@ -89,7 +89,7 @@ func main() {
 		return
 	}
 	run := vk.Start("C15")
-	batches := run.Pick(24, 1000)
+	batches := run.Pick(24, 1200)
 	args := batchArgs{Random: run.Pick(8, 24), MinActs: 30, MaxActs: 120, Size: 1, Clear: 1, Age: 1, Matrix: 1, Only: -1}
 	first := uint64(0)
 	replaying := false
